@@ -79,20 +79,24 @@ var idAtom = map[string][]string{
 	"idAs":       {"x509.subject: C=US, S=WA, O=Acme", "x509.subject:S=WA,O=Acme,C=US"},
 	"idA+":       {"x509.subject: C=US, ST=WA, O=Acme, CN=web", "x509.subject: CN=web,O=Acme,S=WA,C=US"},
 	"idB":        {"x509.subject: C=DE, ST=BY, O=Other", "x509.subject: O=Other, C=DE, ST=BY"},
-	"missingC":   {"x509.subject: ST=WA, O=Acme"},
-	"missingST":  {"x509.subject: C=US, O=Acme, CN=web"},
-	"missingO":   {"x509.subject: C=US, ST=WA, CN=web"},
-	"dupAttr":    {"x509.subject: C=US, ST=WA, O=Acme, O=Two", "x509.subject: C=US, ST=WA, S=OR, O=Acme"},
-	"multiRDN":   {"x509.subject: C=US, ST=WA, O=Acme+CN=web"},
-	"hashForm":   {"x509.subject: C=US, ST=WA, O=Acme, 1.2.3.4=#04024869"},
-	"garbageDN":  {"x509.subject: this is not a DN", "x509.subject: C=US, ST=WA, O", "x509.subject: C=US, ST=WA, O=Acme,", "x509.subject: C=US, ST=WA, O=Acme,,CN=web", "x509.subject: C=US, ST=WA, O=Acme, CN"},
+	// (a mandatory attribute that is written with an EMPTY value is as good as missing)
+	"missingC":  {"x509.subject: ST=WA, O=Acme", "x509.subject: C=, ST=WA, O=Acme"},
+	"missingST": {"x509.subject: C=US, O=Acme, CN=web", "x509.subject: C=US, ST=, O=Acme", "x509.subject: C=US, S=, O=Acme, CN=web"},
+	"missingO":  {"x509.subject: C=US, ST=WA, CN=web", "x509.subject: O=, C=US, ST=WA"},
+	"dupAttr":   {"x509.subject: C=US, ST=WA, O=Acme, O=Two", "x509.subject: C=US, ST=WA, S=OR, O=Acme"},
+	"multiRDN":  {"x509.subject: C=US, ST=WA, O=Acme+CN=web"},
+	"hashForm":  {"x509.subject: C=US, ST=WA, O=Acme, 1.2.3.4=#04024869"},
+	"garbageDN": {"x509.subject: this is not a DN", "x509.subject: C=US, ST=WA, O", "x509.subject: C=US, ST=WA, O=Acme,", "x509.subject: C=US, ST=WA, O=Acme,,CN=web", "x509.subject: C=US, ST=WA, O=Acme, CN"},
 }
 
 const regBase = "registry.acme.io"
 
 var scopeAtom = map[string]string{"*": "*", "r": regBase + "/app", "r/x": regBase + "/app/x", "rx": regBase + "/appx", "r:5000": regBase + ":5000/app",
 	"r-dash": regBase + "/app-x", "r_us": regBase + "/app_x",
-	"upper": regBase + "/App", "tagged": regBase + "/app:v1", "schemed": "https://" + regBase + "/app", "starIn": regBase + "/ap*", "noSlash": "registryacmeio", "emptyRepo": regBase + "/"}
+	"upper": regBase + "/App", "tagged": regBase + "/app:v1", "schemed": "https://" + regBase + "/app", "starIn": regBase + "/ap*", "noSlash": "registryacmeio", "emptyRepo": regBase + "/", "badHost": "exa_mple.com/app"}
+
+// a repository path that is fine behind a registry host that is not
+var badHostScopes = []string{"exa_mple.com/app", "registry..io/app", "-registry.io/app", "registry.io:port/app", "user@registry.io/app", "registry.io:/app", ".registry.io/app"}
 
 func pick(list []string, salt uint32) string { return list[int(salt)%len(list)] }
 
@@ -178,6 +182,9 @@ func concOCI(d AbsDoc, salt uint32) *trustpolicy.OCIDocument {
 			c, ok := scopeAtom[s]
 			if !ok {
 				panic("unknown scope atom " + s)
+			}
+			if s == "badHost" {
+				c = badHostScopes[int(salt+uint32(i))%len(badHostScopes)]
 			}
 			scopes = append(scopes, c)
 		}
@@ -339,6 +346,9 @@ func refFor(path string, salt uint32) string {
 		return regBase + "/APP" + dg
 	case "malformedEmpty":
 		return ""
+	case "malformedTwoAt":
+		// two digests: what stands before the LAST '@' is no repository path
+		return regBase + "/app" + dg + dg
 	case "malformedStar":
 		// the wildcard is a scope, not a repository: "*", "*/*", "host/*"
 		return []string{"*", "*/*", regBase + "/*"}[int(salt)%3] + dg
